@@ -55,6 +55,9 @@ struct Case {
     stored_above: bool,
     seed: u64,
     forced: Option<u64>,
+    /// the announced last header lies this many blocks BELOW start + gap (used with gap 0: a
+    /// sibling of the proven header, or a header below it that is not lighter)
+    back: u64,
 }
 
 pub(crate) fn run(opts: &Opts, report: &mut Report) {
@@ -122,6 +125,7 @@ pub(crate) fn run(opts: &Opts, report: &mut Report) {
                                     stored_above,
                                     seed,
                                     forced: None,
+                                    back: 0,
                                 });
                             }
                             for forced in [0u64, u64::MAX] {
@@ -136,9 +140,25 @@ pub(crate) fn run(opts: &Opts, report: &mut Report) {
                                     stored_above,
                                     seed: 0,
                                     forced: Some(forced),
+                                    back: 0,
                                 });
                             }
                         }
+                    }
+                }
+            }
+        }
+    }
+
+    // a proven peer announces a DIFFERENT header that is not above the proven one in number and
+    // not below it in total difficulty (a sibling after a one-block reorganisation, or a heavier
+    // header further down): no request with start >= last may go out, and nothing may overflow
+    for &last_n in &last_ns {
+        for (s_num, s_td) in [(20u64, U256::from(500u64)), (1_000_000u64, two(64)), (77u64, two(200))] {
+            for back in [0u64, 1, 2, s_num - 1] {
+                for range in [U256::zero(), U256::one(), U256::from(16u64), U256::from(17u64), two(64)] {
+                    for stored_last_n in [false, true] {
+                        cases.push(Case { last_n, s_num, s_td: s_td.clone(), gap: 0, range: range.clone(), with_prove_state: true, stored_last_n, stored_above: false, seed: 0, forced: None, back });
                     }
                 }
             }
@@ -169,7 +189,7 @@ pub(crate) fn run(opts: &Opts, report: &mut Report) {
         next_peer += 1;
         let pi = PeerIndex::new(p);
         let epoch_of = |n: u64| EpochNumberWithFraction::new(1 + (n / 1000) % 100_000, n % 1000, 1000);
-        let l_num = case.s_num + case.gap;
+        let l_num = case.s_num + case.gap - case.back;
         let l_td = &case.s_td + &case.range;
         let block_diff = U256::from(16u64);
         // start header (only if not genesis)
@@ -355,6 +375,12 @@ pub(crate) fn run(opts: &Opts, report: &mut Report) {
         }
         if diffs.len() as u64 > draws {
             fail("more-samples-than-draws", format!("{} difficulties from {} draws", diffs.len(), draws));
+        }
+        if case.gap == 0 {
+            // (a request that passed the checks above starts from a stored header below the
+            // announced one: nothing more is demanded here)
+            distinct_shapes.insert(format!("not-above-the-proven-header/{}/back{}", case.last_n, case.back.min(3)));
+            continue;
         }
         match required_samples(case.gap, case.last_n) {
             None => {
